@@ -68,6 +68,9 @@ def obligations(tier):
            '(none, one unit in the last place, 1e-10 and 1e-7 relative, a quarter stride, one and a half strides): count, first, last, value(i) for positive and negative i and iteration '
            'give each value back to within two units in the last place',
            ['common.Rle.create_rle', 'RLE.add/value/values/num_values/first/last', 'RLEItem.add (float branch)'], harness='C16_rle', func='rle_floats', timeout=170 if q else 600, parts=16),
+        Ob('rle_conversion_function_and_later_adds', 'ch', 'create_rle(1..4 values, fn) with fn none / p - 0x50 / 2p / -p, then 0..3 further add() calls (regular, or off the run by 1 / 0x130 from the first, second or third on): '
+           'count, iteration, value(i) from both ends, first and last are fn of every value, given at once or added later',
+           ['common.Rle.create_rle', 'RLE.__init__ (conversion function)', 'RLE.add/value/values/num_values/first/last'], harness='C16_rle', func='rle_fn_then_add', timeout=170 if q else 600),
         Ob('rle_largest_le', 'ch', 'ascending sequences of length 1..4 (first 0..2, gaps 1..3), query first..12', ['common.Rle.RLE.largest_le', 'RLEItem.largest_le'],
            harness='C16_rle', func='rle_largest_le', timeout=150 if q else 900),
         Ob('rle_largest_le_large_integers', 'ch', 'ascending sequences of length 1..4, first 10**15 / 2**60, gaps 1..3 x (3*10**15+7) / (2**55+1); query = each stored value and its two neighbours',
